@@ -18,6 +18,7 @@ structure St where
   preds : List (Nat × TextPred) := []
   wild : Bool := false
   qfree : Bool := true
+  patQfree : List Bool := []   -- per pattern (one per line): no quantifier, no alternation
   nonRooted : List Nat := []   -- patterns that are top-level sibling groups (`pat <i> 0`)
   oldRange : Bool := false   -- behavioural probe: the code under test has the pre-5d2fccd range test
   cur : String := ""
@@ -111,7 +112,14 @@ def runChk (s : St) (ws : List String) : String :=
   | ["h", m, c] =>
     let ms := getM s m; let cs := getC s c
     let ok := judgeA ms cs none
-    s!"{head} clause=h judge={verdict ok (explainA ms cs none)} corr=- n1={ms.length} n2={cs.length} wild={s.wild}"
+    -- `qfree`: is the pattern of the first missing capture free of quantifiers and alternations?
+    let evs := visibleEvents ms none
+    let tc := cs.map CapEv.triple
+    let missing := evs.filter fun e => !tc.contains e.triple
+    let pq := match missing.head? with
+      | some e => s.patQfree.getD e.pat s.qfree
+      | none => s.qfree
+    s!"{head} clause=h judge={verdict ok (explainA ms cs none)} corr=- n1={ms.length} n2={cs.length} wild={s.wild} qfree={pq}"
   | "b" :: u :: r :: mode :: kind :: rest =>
     let v := rest.map natOf
     let rng := (incOf kind v).getD defaultRange
@@ -217,12 +225,21 @@ def step (s : St) (line : String) : IO St := do
   match line.splitOn " " with
   | ["case", id] => return { id := id, oldRange := s.oldRange }
   | ["pat", i, rooted] => return (if rooted == "0" then { s with nonRooted := natOf i :: s.nonRooted } else s)
+  | ["pat", i, rooted, expected] =>
+    -- clause r: `ts_query_is_pattern_rooted` against the rootedness read off the pattern text; the
+    -- range clauses use the TEXT's verdict, so a wrong flag shows in clause b as well
+    IO.println s!"{s.id}#pat{i} clause=r judge={if rooted == expected then "ok" else if expected == "0" then "FAIL rooted-although-several-top-level-nodes" else "FAIL non-rooted-although-one-top-level-node"} api={rooted} expected={expected} corr=-"
+    return (if expected == "0" then { s with nonRooted := natOf i :: s.nonRooted } else s)
   | ["probe", "node_precedes_range", v] => return { s with oldRange := v == "old" }
   | ["text", h] => return { s with text := (unhexBytes h).toArray }
   | ["text"] => return { s with text := #[] }
   | ["query", h] =>
     let bs := unhexBytes h
-    return { s with wild := wildRoot bs, qfree := !(bs.any fun c => c == 42 || c == 43 || c == 63 || c == 91) }
+    let isQ := fun (c : Nat) => c == 42 || c == 43 || c == 63 || c == 91
+    -- one pattern per line
+    let lines := (bs.foldl (fun (acc : List (List Nat)) c => if c == 10 then [] :: acc else match acc with | l :: r => (c :: l) :: r | [] => [[c]]) [[]]).reverse
+    let pq := (lines.filter (fun l => !l.isEmpty)).map fun l => !(l.any isQ)
+    return { s with wild := wildRoot bs, qfree := !(bs.any isQ), patQfree := pq }
   | ["stream", n] => return { s with cur := n, curM := #[], curC := #[], inStream := true }
   | "m" :: ws => match parseM ws with
     | some m => return { s with curM := s.curM.push m }
